@@ -95,9 +95,9 @@ Definition listens (fname : string) (trig : Z) : bool :=
               else has Result (w_chans w) || match w_kind w with WAcquire => true | _ => false end
   end.
 
-(* on the real sessions a write after Close (or with a dead context) fails, so an operation started after the
+(* on the real sessions a write after a local Close fails, so an operation started after the
    trigger returns from the write whatever it would have waited for *)
-Definition write_fails (tr pt trig : Z) : bool := negb (tr =? 0) && (pt =? 0) && negb (trig =? 4).
+Definition write_fails (tr pt trig : Z) : bool := negb (tr =? 0) && (pt =? 0) && (trig =? 2).
 
 Definition predicted_ret (tr op pt trig : Z) : bool :=
   match blocked_at tr op pt with
